@@ -2,5 +2,5 @@
 # usage: try_patch.sh <patch.diff> <prop> [scale]   -- apply to /repo, run the quick check, undo
 set -e
 git -C /repo apply "$1"
-/verif/bin/check $2 --scale ${3:-1} 2>&1 | grep -E "VIOLATION|rule=|KNOWN|quick:|HARNESS|NOTE" | cut -c1-400 || true
+VERIF_NO_EVIDENCE=1 /verif/bin/check $2 --scale ${3:-1} 2>&1 | grep -E "VIOLATION|rule=|KNOWN|quick:|HARNESS|NOTE" | cut -c1-400 || true
 git -C /repo checkout -- .
